@@ -53,3 +53,135 @@ TABLE["llvm.x86.sse41.pblendvb"] = _blendv(8)
 TABLE["llvm.x86.avx.blendv.ps.256"] = _blendv(32)
 TABLE["llvm.x86.avx.blendv.pd.256"] = _blendv(64)
 TABLE["llvm.x86.avx2.pblendvb"] = _blendv(8)
+
+
+# ---------------------------------------------------------------------------
+# shifts.  SDM PSLLW/D/Q, PSRLW/D/Q: "If the value specified by the count
+# operand is greater than 15/31/63 the destination is set to all 0s"; PSRAW/D/Q:
+# "... each element is filled with the initial value of the sign bit".  The
+# count is the low 64 bits of the second operand.  VPSLLV/VPSRLV/VPSRAV: same
+# per element with the element's own count.
+
+def _shift_uniform(kind, eb):
+    def h(I, ins, args, cond):
+        v, cnt = args
+        c = T.slice_(cnt, 0, 64) if cnt[1] >= 64 else cnt
+        n = v[1] // eb
+        return T.concat([T.shift(kind, T.slice_(v, i * eb, eb), c, True) for i in range(n)])
+    return h
+
+
+def _shift_var(kind, eb):
+    def h(I, ins, args, cond):
+        v, cnt = args
+        n = v[1] // eb
+        return T.concat([T.shift(kind, T.slice_(v, i * eb, eb), T.slice_(cnt, i * eb, eb), True)
+                         for i in range(n)])
+    return h
+
+
+for _k, _kind in (("psll", "shl"), ("psrl", "lshr"), ("psra", "ashr")):
+    for _s, _eb in (("w", 16), ("d", 32), ("q", 64)):
+        for _pre in ("llvm.x86.sse2.", "llvm.x86.avx2.", "llvm.x86.avx512."):
+            for _suf in ("", ".128", ".256", ".512"):
+                TABLE[_pre + _k + "." + _s + _suf] = _shift_uniform(_kind, _eb)
+                TABLE[_pre + _k + "v." + _s + _suf] = _shift_var(_kind, _eb)
+
+
+# immediate forms (pslli etc.) take an i32 count
+for _k, _kind in (("pslli", "shl"), ("psrli", "lshr"), ("psrai", "ashr")):
+    for _s, _eb in (("w", 16), ("d", 32), ("q", 64)):
+        for _pre in ("llvm.x86.sse2.", "llvm.x86.avx2.", "llvm.x86.avx512."):
+            for _suf in ("", ".128", ".256", ".512"):
+                TABLE[_pre + _k + "." + _s + _suf] = _shift_uniform(_kind, _eb)
+
+
+# ---------------------------------------------------------------------------
+# packs.  SDM PACKUSWB: "converts signed word integers into unsigned byte
+# integers using unsigned saturation"; within each 128-bit block the low 8
+# bytes come from the first operand, the high 8 from the second.
+
+def _pack(sat, src_eb):
+    def h(I, ins, args, cond):
+        a, b = args
+        out = []
+        per = 128 // src_eb
+        for blk in range(a[1] // 128):
+            for src in (a, b):
+                for i in range(per):
+                    x = T.slice_(src, blk * 128 + i * src_eb, src_eb)
+                    out.append(T.saturate(sat, x, src_eb // 2))
+        return T.concat(out)
+    return h
+
+
+for _n, _sat, _eb in (("packuswb", "us", 16), ("packsswb", "ss", 16), ("packusdw", "us", 32),
+                      ("packssdw", "ss", 32)):
+    for _pre, _suf in (("llvm.x86.sse2.", ".128"), ("llvm.x86.sse41.", ""), ("llvm.x86.avx2.", ""),
+                       ("llvm.x86.avx512.", ".512"), ("llvm.x86.sse2.", "")):
+        TABLE[_pre + _n + _suf] = _pack(_sat, _eb)
+
+
+# ---------------------------------------------------------------------------
+# PSHUFB: per 128-bit block, "if the most significant bit of the control byte is
+# set, zero is written; else the low 4 bits select the source byte".
+
+def _pshufb(I, ins, args, cond):
+    a, ctl = args
+    out = []
+    for i in range(a[1] // 8):
+        c = T.slice_(ctl, i * 8, 8)
+        blk = i // 16
+        if c[0] == "const":
+            if c[2] & 0x80:
+                out.append(T.const(8, 0))
+            else:
+                out.append(T.slice_(a, blk * 128 + (c[2] & 15) * 8, 8))
+        else:
+            out.append(T.op("x86.pshufb", 8, T.slice_(a, blk * 128, 128), c))
+    return T.concat(out)
+
+
+for _n in ("llvm.x86.ssse3.pshuf.b.128", "llvm.x86.avx2.pshuf.b", "llvm.x86.avx512.pshuf.b.512"):
+    TABLE[_n] = _pshufb
+
+
+# ---------------------------------------------------------------------------
+# VPTERNLOG: bitwise truth table imm8[(a<<2)|(b<<1)|c]
+
+def _ternlog(I, ins, args, cond):
+    a, b, c, imm = args
+    if imm[0] != "const":
+        return NotImplemented
+    return T.truth3(a, b, c, imm[2])
+
+
+for _s in ("d", "q"):
+    for _w in ("128", "256", "512"):
+        TABLE["llvm.x86.avx512.pternlog.%s.%s" % (_s, _w)] = _ternlog
+
+
+# ---------------------------------------------------------------------------
+# GF2P8AFFINEQB: out.bit[i] = parity(matrix.byte[7-i] AND x.byte) XOR imm8.bit[i]
+
+def _affine(I, ins, args, cond):
+    x, A, imm = args
+    if imm[0] != "const" or A[0] != "const":
+        return NotImplemented
+    out = []
+    for by in range(x[1] // 8):
+        q = by // 8
+        xb = T.slice_(x, by * 8, 8)
+        bits_ = []
+        for i in range(8):
+            row = (A[2] >> (q * 64 + (7 - i) * 8)) & 0xFF
+            sel = [T.slice_(xb, k, 1) for k in range(8) if (row >> k) & 1]
+            if (imm[2] >> i) & 1:
+                sel.append(T.const(1, 1))
+            bits_.append(T.nary("xor", 1, sel) if len(sel) > 1 else (sel[0] if sel else T.const(1, 0)))
+        out.append(T.concat(bits_))
+    return T.concat(out)
+
+
+for _w in ("128", "256", "512"):
+    TABLE["llvm.x86.vgf2p8affineqb." + _w] = _affine
